@@ -463,6 +463,11 @@ impl<P: ProcessRun> Run<'_, P> {
                         if self.process_task(
                             task, &tasks, &mut metrics,
                         ).is_err() {
+                            // Make sure the run is marked as failed even
+                            // if whoever produced the error didn’t.
+                            if !self.had_err.load(Ordering::Relaxed) {
+                                self.run_failed(RunFailed::fatal());
+                            }
                             break;
                         }
                     }
